@@ -407,7 +407,8 @@ class extract_visitor(NodeVisitor):
 
     def visit_Global(self, node):
         # type: (ast.Global) -> None
-        self.flow.scope.globals.update(node.names)
+        if self.flow.scope is not self.top:  # a declaration at module level changes nothing
+            self.flow.scope.globals.update(node.names)
 
     def visit_Nonlocal(self, node):
         # type: (ast.Nonlocal) -> None
